@@ -8,7 +8,8 @@
 From Coq Require Import QArith List Bool ZArith.
 From SF Require Import Base.QKernel Model.Validate Model.ValidateSpec
   Proofs.Validate_kernel Proofs.Validate_graph Proofs.Validate_proofs Proofs.Validate_translate
-  Proofs.Validate_repr Proofs.Validate_sound.
+  Proofs.Validate_repr Proofs.Validate_sound
+  Base.GeomAST Base.Planar Base.Planar_C03 Proofs.Planar_slab_base Proofs.Validate_ogc.
 Import ListNotations.
 Open Scope Q_scope.
 
@@ -196,4 +197,56 @@ Print Assumptions multipolygon_validate_sound_partial.
 Example multipolygon_sound_nonvacuous :
   mpoly_constraints [] [[[(0, 0); (4, 0); (4, 4); (0, 4); (0, 0)]]; [[(4, 4); (6, 4); (6, 6); (4, 4)]]] = None
   /\ mpoly_constraints [] [[[(0, 0); (4, 0); (4, 4); (0, 4); (0, 0)]]; [[(4, 1); (6, 1); (4, 3); (4, 1)]]] = Some RPolysMultiTouch.
+Proof. vm_compute. auto. Qed.
+
+(* ---------------------------------------------------------------- ogc_valid is a verified reference *)
+(* A clause evaluated at the witnesses of the exact arrangement decides the statement for ALL
+   points of Q^2 (slab sufficiency, Proofs/Planar_slab.v; hypothesis: polygon rings are closed
+   vertex lists - nothing else, rings may self-intersect). *)
+Theorem ogc_everywhere_is_everywhere : forall (gs : list geom) (F : list bool -> bool),
+  (forall g, In g gs -> rings_closed g) ->
+  (everywhere gs F = true <-> forall p, F (map (fun g => inG g p) gs) = true).
+Proof. exact everywhere_spec. Qed.
+Print Assumptions ogc_everywhere_is_everywhere.
+
+(* poly_def, clause by clause, over all points: rings closed/simple by definition; two rings share
+   at most one point; EVERY point of a hole is inside or on the shell; NO point of a hole is
+   interior to another hole; interior connected.  The last clause (connectivity of the
+   face-adjacency graph of the slab decomposition, Base/Planar_C03.interior_connected) is kept as
+   defined: its reading as topological connectedness of the open interior is not proved. *)
+Theorem ogc_polygon_clauses_verified : forall (shell : list pt) (holes : list (list pt)),
+  poly_def (shell :: holes) = true <->
+  ( Forall (fun r => ring_def r = true) (shell :: holes)
+    /\ ForallOrdPairs (fun a b => forall p q, on_edges (segs a) p = true -> on_edges (segs b) p = true ->
+                                   on_edges (segs a) q = true -> on_edges (segs b) q = true -> pt_eq p q) (shell :: holes)
+    /\ Forall (fun h => forall p, on_edges (segs h) p = true -> locate (g_poly [shell]) p <> Exterior) holes
+    /\ ForallOrdPairs (fun h k => forall p, (on_edges (segs h) p = true -> locate (g_poly [k]) p <> Interior)
+                                         /\ (on_edges (segs k) p = true -> locate (g_poly [h]) p <> Interior)) holes
+    /\ interior_connected (map segs (shell :: holes)) = true ).
+Proof. exact poly_def_meaning. Qed.
+Print Assumptions ogc_polygon_clauses_verified.
+
+(* the MultiPolygon pair clause over all points: boundaries share no piece of positive length
+   (no two boundary segments have two distinct common points) and NO point of Q^2 is interior to
+   both members *)
+Theorem ogc_multipolygon_clauses_verified : forall A B : list (list pt),
+  A <> [] -> B <> [] ->
+  Forall (fun r => pts_closed r = true) A -> Forall (fun r => pts_closed r = true) B ->
+  (mpoly_pair_def A B = true <->
+   (forall s t, In s (flat_map segs A) -> In t (flat_map segs B) -> forall p q, common s t p -> common s t q -> pt_eq p q)
+   /\ (forall p, ~ (locate (g_poly A) p = Interior /\ locate (g_poly B) p = Interior))).
+Proof. exact mpoly_pair_def_meaning. Qed.
+Print Assumptions ogc_multipolygon_clauses_verified.
+
+(* QKernel.seg_seg reports an overlap exactly when the segments share two distinct points *)
+Theorem seg_seg_overlap_is_shared_piece : forall s t : seg,
+  (exists p q, seg_seg s t = SSOverlap p q) <-> (exists p q, common s t p /\ common s t q /\ ~ pt_eq p q).
+Proof. exact seg_seg_overlap_iff. Qed.
+Print Assumptions seg_seg_overlap_is_shared_piece.
+Example ogc_clauses_nonvacuous :
+  let sq := [(0, 0); (6, 0); (6, 6); (0, 6); (0, 0)] in
+  poly_def [sq; [(0, 0); (3, 1); (1, 3); (0, 0)]] = true
+  /\ poly_def [sq; [(5, 5); (8, 5); (8, 8); (5, 5)]] = false
+  /\ mpoly_pair_def [sq] [[(6, 6); (8, 6); (8, 8); (6, 6)]] = true
+  /\ mpoly_pair_def [sq] [[(1, 1); (2, 1); (2, 2); (1, 1)]] = false.
 Proof. vm_compute. auto. Qed.
